@@ -102,7 +102,9 @@ def enc_tol(t) -> str:
 
 def enc_pred(kind, rel, abs_, a, b) -> str:
     st = {}
-    return f"pred {kind} {enc_tol(rel)} {enc_tol(abs_)} {enc_arr(a, st)} {enc_arr(b, st)}"
+    # an omitted abs_tol is the constructor default 0.0 (the model's `dflt` is the *relative* default)
+    abs_enc = "num 0" if abs_[0] == "dflt" else enc_tol(abs_)
+    return f"pred {kind} {enc_tol(rel)} {abs_enc} {enc_arr(a, st)} {enc_arr(b, st)}"
 
 
 # ---------------------------------------------------------------- independent oracles (f64)
